@@ -1,11 +1,18 @@
 #!/bin/bash
-# seed_try.sh <name> [check args]: apply seeded/<name>/patch.diff to /repo, run the property's check, always undo.
+# seed_try.sh <name> [check args]: apply seeded/<name>/patch.diff to a SCRATCH worktree of /repo's HEAD, run the
+# property's check against it (COBA_REPO), remove the worktree.  /repo itself is never touched (other checks may be
+# running against it).
 n=$1; shift; id=${n:0:3}
-cd /repo && git diff --quiet || { echo "/repo dirty"; exit 2; }
-git -C /repo apply /verif/seeded/$n/patch.diff || exit 2
-trap 'git -C /repo checkout -- .' EXIT
-cd /verif && mkdir -p /tmp/seedtry && ./check $id "$@" > /tmp/seedtry/$n.log 2>&1; rc=$?
+wt=/tmp/wt/try-$n
+git -C /repo worktree remove --force $wt 2>/dev/null; rm -rf $wt
+git -C /repo worktree add -q --detach $wt HEAD || exit 2
+trap 'git -C /repo worktree remove --force '$wt' 2>/dev/null; git -C /repo worktree prune' EXIT
+git -C $wt apply /verif/seeded/$n/patch.diff || { echo "$n: patch does not apply"; exit 2; }
+mkdir -p /tmp/seedtry
+cd /verif && cp evidence/$id.json /tmp/seedtry/$id.evidence.keep 2>/dev/null
+COBA_REPO=$wt timeout 1800 ./check $id "$@" > /tmp/seedtry/$n.log 2>&1; rc=$?
 grep -c '^VIOLATION' /tmp/seedtry/$n.log | sed "s/^/$n: rc=$rc violations=/"
 grep '^VIOLATION' /tmp/seedtry/$n.log | head -3 | cut -c1-400
 cp /verif/evidence/$id.json /tmp/seedtry/$n.evidence.json 2>/dev/null
+cp /tmp/seedtry/$id.evidence.keep /verif/evidence/$id.json 2>/dev/null     # keep the clean tree's evidence
 exit 0
